@@ -287,14 +287,14 @@ theorem text_head (t : V1W) (R : Str) : ∃ Y, t.text R = t.indent ++ 'O' :: Y :
   rw [ofx_toList]
   exact ⟨_, rfl⟩
 
-/-- **C05 for v1 files**: every tolerated layout -/
-theorem parse_v1 (p1 : V1P) (p2 : V2P) (tbl : List (Option Nat)) (lay : V1Lay) (f : V1File) (body : Str)
+/-- v1 files, any payload that starts with `<`: the header fields, and the payload with the gap in front,
+    stripped -/
+theorem parse_v1_gen (p1 : V1P) (p2 : V2P) (tbl : List (Option Nat)) (lay : V1Lay) (f : V1File) (body : Str)
     (bb : Bytes) (cs : Name) (hv : ValidV1 p1 f.h)
     (hcomp : f.withCompression = false → f.h.compression = "NONE".toList)
     (hcodec : codecV1 p1 f.h = .ok cs) (henc : encode tbl cs body = .ok bb)
-    (hb0 : body.head? = some '<') (hb1 : body.getLast? = some '>')
-    (htol : lay.tolerated = true) :
-    parseHeader p1 p2 tbl (renderV1 lay f bb) = .ok (.v1 f.h, body) := by
+    (hb0 : body.head? = some '<') (htol : lay.tolerated = true) :
+    parseHeader p1 p2 tbl (renderV1 lay f bb) = .ok (.v1 f.h, strip (lay.gap ++ body)) := by
   have lo := layOk_of_tolerated lay htol
   obtain ⟨ok, nl⟩ := ofLay_ok p1 lay f lo hv
   have hA := ofLay_ascii p1 lay f lo hv
@@ -406,7 +406,8 @@ theorem parse_v1 (p1 : V1P) (p2 : V2P) (tbl : List (Option Nat)) (lay : V1Lay) (
     rw [hmatch, hcaps]
     simp only [hctor, bind, Except.bind, pure, Except.pure, hlen]
   -- the body: byte-exact offset, declared codec, strip
-  have hmsg : (strip <$> decode tbl cs ((renderV1 lay f bb).drop (hs + A.length))) = .ok body := by
+  have hmsg : (strip <$> decode tbl cs ((renderV1 lay f bb).drop (hs + A.length))) =
+      .ok (strip (lay.gap ++ body)) := by
     have e : (renderV1 lay f bb).drop (hs + A.length) = G := by
       rw [← List.drop_drop, hdropF]
       exact List.drop_left' (asciiBytes_length _)
@@ -414,7 +415,6 @@ theorem parse_v1 (p1 : V1P) (p2 : V2P) (tbl : List (Option Nat)) (lay : V1Lay) (
     simp only [G]
     rw [decode_ascii_prefix tbl cs lay.gap gas bb, decode_encode tbl cs body bb henc]
     simp only [Except.map, Functor.map]
-    rw [strip_ws_body lay.gap body gs '<' brest hbody (by decide) '>' hb1 (by decide)]
   unfold parseHeader
   simp only [hfind, bind, Except.bind, hxml, hraw, hparse, hcodec]
   have := hmsg
@@ -424,7 +424,38 @@ theorem parse_v1 (p1 : V1P) (p2 : V2P) (tbl : List (Option Nat)) (lay : V1Lay) (
   | ok m =>
     rw [hdd] at this
     simp only [pure, Except.pure]
-    cases this
-    rfl
+    have e : strip m = strip (lay.gap ++ body) := by injection this
+    rw [e]
+
+/-- `strip` removes whitespace on both sides of a text that starts and ends with non-space characters -/
+theorem strip_ws_body_ws (g body w : Str) (hg : allSpace g) (hw : allSpace w) (c0 : Char) (cs : Str)
+    (hb : body = c0 :: cs) (h0 : isSpace c0 = false) (cl : Char) (hl : body.getLast? = some cl)
+    (hls : isSpace cl = false) : strip (g ++ (body ++ w)) = body := by
+  unfold strip
+  rw [lstrip_append_space g _ hg, hb, List.cons_append, lstrip_nonspace c0 _ h0, ← List.cons_append, ← hb]
+  unfold rstrip
+  obtain ⟨init, hi⟩ : ∃ init, body = init ++ [cl] := by
+    rw [List.getLast?_eq_some_iff] at hl
+    exact hl
+  rw [List.reverse_append, lstrip_append_space _ _ (fun c hc => hw c (by simpa using hc)), hi, List.reverse_append]
+  simp only [List.reverse_cons, List.reverse_nil, List.nil_append, List.singleton_append]
+  rw [lstrip_nonspace cl _ hls]
+  simp
+
+/-- **C05 for v1 files**: every tolerated layout -/
+theorem parse_v1 (p1 : V1P) (p2 : V2P) (tbl : List (Option Nat)) (lay : V1Lay) (f : V1File) (body : Str)
+    (bb : Bytes) (cs : Name) (hv : ValidV1 p1 f.h)
+    (hcomp : f.withCompression = false → f.h.compression = "NONE".toList)
+    (hcodec : codecV1 p1 f.h = .ok cs) (henc : encode tbl cs body = .ok bb)
+    (hb0 : body.head? = some '<') (hb1 : body.getLast? = some '>')
+    (htol : lay.tolerated = true) :
+    parseHeader p1 p2 tbl (renderV1 lay f bb) = .ok (.v1 f.h, body) := by
+  rw [parse_v1_gen p1 p2 tbl lay f body bb cs hv hcomp hcodec henc hb0 htol]
+  obtain ⟨brest, hbody⟩ : ∃ r, body = '<' :: r := by
+    cases body with
+    | nil => simp at hb0
+    | cons c r => simp at hb0; exact ⟨r, by rw [hb0]⟩
+  rw [strip_ws_body lay.gap body (asciiSpace_spec _ (layOk_of_tolerated lay htol).gap).1 '<' brest hbody (by decide)
+    '>' hb1 (by decide)]
 
 end Ofx.Header
